@@ -108,6 +108,11 @@ def make(name, **over):
         # `max_step` override: length of the generator's walk buffer, independent of the environment's time_limit (the default
         # constructor couples them; a custom generator need not)
         ms = over.pop("max_step", None)
+        if var.isdigit() and int(var) >= 30:
+            # 'MMST@3<k>': THREE agents, 9 nodes (3 utility nodes), instance index k - interactions that need a third agent (edge
+            # masking that only keeps the removal caused by the LAST other agent) do not exist with two
+            return E.MMST(generator=g["SplitRandomGenerator"](num_nodes=9, num_edges=12, max_degree=4, num_agents=3, num_nodes_per_agent=2,
+                                                             max_step=ms if ms is not None else (T if T is not None else 5)), **tl(), **over)
         return E.MMST(generator=g["SplitRandomGenerator"](num_nodes=6, num_edges=8, max_degree=3, num_agents=2, num_nodes_per_agent=2,
                                                          max_step=ms if ms is not None else (T if T is not None else 5)), **tl(), **over)
     if base == "MultiCVRP":
